@@ -1089,11 +1089,19 @@ def run_pipeline(prop, tier, v, quick):
         for k in common.load_known():
             if k.get("status") == "known":
                 known_errs.update(k.get("model_errs", []))
-        for name, consts in cfgs_for(prop, tier).items():
+        from concurrent.futures import ThreadPoolExecutor
+        cfgs = cfgs_for(prop, tier)
+
+        def check_one(item):
+            name, consts = item
             consts = dict(consts, KnownErrs=known_errs)
             mname = "MC_%s_%s" % (prop, name)
             common.write_model(wd, mname, "Wormhole", consts, invariants=MODEL_INVARIANTS[prop], view="view")
-            r = tlc.run(mname + ".tla", mname + ".cfg", cwd=wd.path, timeout=3000)
+            return name, mname, tlc.run(mname + ".tla", mname + ".cfg", cwd=wd.path, timeout=3000, workers=6 if quick else 16, heap="4g" if quick else "8g")
+        # (quick: the configurations are small - three at a time with six workers each; thorough: one after the other)
+        with ThreadPoolExecutor(max_workers=3 if quick else 1) as ex:
+            results = list(ex.map(check_one, list(cfgs.items())))
+        for name, mname, r in results:
             cov["tlc_configs"][name] = {"distinct_states": r.distinct, "states_generated": r.generated, "depth": r.depth,
                                         "wall_s": round(r.wall, 1), "result": "ok" if r.ok else (r.violated or "error")}
             states += r.distinct
@@ -1307,6 +1315,7 @@ def run_pipeline(prop, tier, v, quick):
             records.append(run_.finish(drained, goal=goal))
         cov["lazy_application_runs"] = nlazy
         cov.setdefault("timing", {})["tlc_exhaustive_s"] = round(sum(c["wall_s"] for c in cov["tlc_configs"].values()), 1)
+        cov["timing"]["tlc_exhaustive_note"] = "sum of the configurations' wall times; in the quick tier three run at a time"
         cov["timing"]["real_runs_s"] = round(time.time() - t1 - cov["timing"]["simulate_s"], 1)
         t1 = time.time()
         tv, rtv = run_trace_validation(wd, lines, nrand - nlazy)
